@@ -5,6 +5,7 @@ package main
 // Also the package call graph used by the ownership engine.
 
 import (
+	"strings"
 	"go/types"
 
 	"golang.org/x/tools/go/ssa"
@@ -30,6 +31,16 @@ func localRoot(v ssa.Value) bool {
 			v = x.X
 		case *ssa.Alloc, *ssa.MakeSlice:
 			return true
+		case *ssa.Parameter:
+			// a helper's parameter stands for the argument at its call sites
+			if curProg == nil {
+				return false
+			}
+			o := curProg.origin(x)
+			if o == v {
+				return false
+			}
+			v = o
 		default:
 			return false
 		}
@@ -46,7 +57,7 @@ func storeClass(addr ssa.Value) (string, bool) {
 		fld := x.X.Type().Underlying().(*types.Pointer).Elem().Underlying().(*types.Struct).Field(x.Field)
 		return "F:" + structNameOfPtr(x.X.Type()) + "." + fld.Name(), true
 	case *ssa.IndexAddr:
-		return "E:" + typeKey(x.Type()), true
+		return strings.ReplaceAll("E:"+typeKey(x.Type()), "byte", "uint8"), true
 	case *ssa.Alloc:
 		return "", false // local
 	case *ssa.Global:
@@ -114,10 +125,10 @@ func (p *Prog) mods() *modInfo {
 		return p.modCache
 	}
 	mi := &modInfo{direct: map[*ssa.Function]map[string]bool{}, trans: map[*ssa.Function]map[string]bool{}, callees: map[*ssa.Function][]*ssa.Function{}}
-	for _, fn := range p.FuncSeq {
+	for _, fn := range p.AllFuncs {
 		d := map[string]bool{}
 		var cs []*ssa.Function
-		allInstrs(fn, func(in ssa.Instruction) {
+		ownInstrs(fn, func(in ssa.Instruction) {
 			switch x := in.(type) {
 			case *ssa.Store:
 				if c, ok := storeClass(x.Addr); ok {
@@ -137,7 +148,7 @@ func (p *Prog) mods() *modInfo {
 				switch p.calleeDesc(x) {
 				case "builtin:copy":
 					if !localRoot(cc.Args[0]) {
-						d["E:*"+typeKey(cc.Args[0].Type().Underlying().(*types.Slice).Elem())] = true
+						d[strings.ReplaceAll("E:*"+typeKey(cc.Args[0].Type().Underlying().(*types.Slice).Elem()), "byte", "uint8")] = true
 					}
 				case "binary.bigEndian.PutUint16", "binary.bigEndian.PutUint32", "binary.bigEndian.PutUint64", "io.ReadFull":
 					if !localRoot(cc.Args[1]) {
@@ -149,7 +160,7 @@ func (p *Prog) mods() *modInfo {
 		mi.direct[fn] = d
 		mi.callees[fn] = cs
 	}
-	for _, fn := range p.FuncSeq {
+	for _, fn := range p.AllFuncs {
 		t := map[string]bool{}
 		seen := map[*ssa.Function]bool{}
 		var walk func(f *ssa.Function)
@@ -199,7 +210,7 @@ func (p *Prog) modSetOfCall(c ssa.CallInstruction) map[string]bool {
 	if _, isFn := cc.Value.(*ssa.Function); !isFn {
 		if _, isB := cc.Value.(*ssa.Builtin); !isB {
 			if sig, ok := cc.Value.Type().Underlying().(*types.Signature); ok {
-				for _, fn := range p.FuncSeq {
+				for _, fn := range p.AllFuncs {
 					if fn.Parent() != nil && types.Identical(fn.Signature, sig) {
 						for k := range mi.trans[fn] {
 							out[k] = true
